@@ -7,6 +7,7 @@ use std::panic::{catch_unwind, AssertUnwindSafe};
 
 mod util;
 mod angles;
+mod sel;
 mod circles;
 mod metro;
 mod curve;
@@ -33,6 +34,7 @@ fn dispatch(rec: &Value, st: &mut State) -> Value {
     let m = rec["m"].as_str().unwrap_or("");
     match m {
         "angles" => angles::exec(rec, st),
+        "sel" => sel::exec(rec, st),
         "circles" => circles::exec(rec, st),
         "metro" => metro::exec(rec, st),
         "curve" => curve::exec(rec, st),
